@@ -209,3 +209,47 @@ func H_C14_close() {
 	}
 	vfCover("C14.close.end")
 }
+
+// ---------------------------------------------------------------------------------------------
+// C14 (deferred work of the real dispatcher): session teardown and descriptor closing are posted to
+// the event loop as lambdas; one that is lost or run twice is a descriptor that is never closed or
+// closed twice. Lambdas posted while a batch runs (by the running lambda here - for post/runLambda,
+// which hand over under one lock, the same as a post by another goroutine between two lambdas)
+// must run exactly once in a later batch.
+type c14L struct {
+	d       *epollDispatcher
+	ran     [16]int
+	nposted int
+}
+
+func (l *c14L) post(depth int) {
+	id := l.nposted
+	l.nposted++
+	l.d.post(func() {
+		l.ran[id]++
+		if depth == 0 {
+			c := vfShape("children", 0, 3)
+			for j := 0; j < c; j++ {
+				l.post(depth + 1)
+			}
+		}
+	})
+}
+
+func H_C14_lambdas() {
+	l := &c14L{d: newEpollDispatcher()}
+	n0 := vfShape("initial", 1, 3)
+	for i := 0; i < n0; i++ {
+		l.post(0)
+	}
+	for r := 0; r < 3; r++ {
+		l.d.runLambda()
+	}
+	for i := 0; i < 16; i++ {
+		if i < l.nposted {
+			vfAssert(l.ran[i] == 1, "C14.every-posted-lambda-runs-exactly-once")
+		}
+	}
+	vfAssert(len(l.d.pendingLambda) == 0, "C14.no-lambda-left-pending")
+	vfCover("C14.lambdas.end")
+}
